@@ -1262,6 +1262,10 @@ class Interp:
         except RaiseSig:
             raise
         except AttributeError as ex:
+            if is_sym(o) or getattr(o, "_pyvc_symbolic", False) or isinstance(o, core.Sym):
+                # the attribute exists on the real value (int.bit_length, str.lstrip, ...) but not on its symbolic
+                # stand-in: the executor cannot follow, which is NOT an AttributeError of the program
+                raise Unsupported(f"attribute {name!r} of a symbolic {type(o).__name__} (no model)")
             raise RaiseSig(ex)
 
     def e_Subscript(self, e, fr):
